@@ -1123,6 +1123,12 @@ class SymExec(object):
                 st.events.append(('in-comp',) + tuple(e))
             st.data = sub.data      # hook state set while evaluating the element expression
             kind = {ast.ListComp: 'listcomp', ast.SetComp: 'setcomp', ast.GeneratorExp: 'genexp'}[type(n)]
+            if kind in ('listcomp', 'genexp') and len(gens) == 1 and not gens[0][1] and gens[0][0][0] in ('tuple', 'list', 'name'):
+                # over a literal table of a few names (field keys) the comprehension is the display it spells out
+                items_ = self.iter_items(gens[0][0], st, limit=8)
+                if items_ and all(i_[0] == 'const' and isinstance(i_[1], str) for i_ in items_):
+                    is_el = lambda x: x[0] == 'elem' and x[1] == gens[0][0]
+                    return ('list', tuple(replace_term(elt, is_el, i_) for i_ in items_))
             return mk_comp(kind, elt, tuple(gens))
         if isinstance(n, ast.DictComp):
             sub = st.copy()
